@@ -149,6 +149,17 @@ def rearm(ctx, L, rule="R-REARM"):
                         ok = True
                     else:
                         why = " (deadline set to %s, which is not in the future)" % pretty(e.value)
+                # progress: an expiry that neither removes the session, nor transmits, nor changes any session field besides the
+                # deadline repeats identically at every later expiry - the session (and its pair / number) is held forever
+                if ok and not dele and table == "_snd_buffer" and st is not None:
+                    sends = [e for _, e in r.effects() if e.kind == "call" and (mname(e.value) or "").startswith("__send_tp")]
+                    other = [e for _, e in r.effects() if e.kind in ("store", "aug") and e.target[0] == "sub" and e.target[1] == E and
+                             e.target != sub(E, "deadline") and not (e.target == sub(E, "state") and e.value == ("c", L.const("state", st)))]
+                    if not sends and not other:
+                        ctx.violated(rule, L.job, inst + " makes progress", "the expired session is only given a new deadline: nothing is sent and neither its "
+                                     "state nor its position changes, so the same expiry repeats forever and the pair stays occupied (no timeout abort is ever reached)",
+                                     arm[0].node if arm else L.job.node)
+                        continue
                 if ok:
                     ctx.holds(rule, inst)
                 else:
@@ -386,7 +397,15 @@ def pool_pair(ctx, L, rule="R-POOL-PAIR"):
             ctx.violated(rule, L.job, inst, "send session is deleted without returning its session number to the pool: the number is lost for good",
                          [e for _, e in r.effects() if e.kind == "del"][0].node)
         else:
-            ctx.holds(rule, inst)
+            di = [i for i, e in r.effects() if e.kind == "del" and e.target == E][0]
+            if calls[0][0] < di:
+                # the number is part of the session key: once it is back in the pool, send_pgn on another thread can take it and
+                # create a session under the very key this pass is about to delete
+                ctx.violated(rule, L.job, inst + " (after the deletion)", "the session number is returned to the pool BEFORE the session is removed from "
+                             "the table: a send_pgn running in between gets the same number and the same key, and its new session is then "
+                             "deleted by this pass (message lost, number leaked)", calls[0][1].node)
+            else:
+                ctx.holds(rule, inst)
     if n < 2 or m < 4:
         ctx.unknown(rule, "pool sites not found (creations=%d, deletions=%d)" % (n, m))
     # getters hand out the index they mark
@@ -461,3 +480,90 @@ def wakeup_min(ctx, func, rule="R-WAKEUP-MIN", tag=""):
                          "thread sleeps until the one scanned last, and an earlier one is served late", a)
     if n_ok == 0 and len(assigns) < 2:
         ctx.unknown(rule, "no wake-up updates found in %s" % f.qual)
+
+
+def wakeup_cover(ctx, L, rule="R-WAKEUP-COVER"):
+    """every job-pass path that gives a surviving session a new deadline afterwards folds that deadline into the pass's
+    next wake-up (a comparison with / assignment of the wake-up variable after the last deadline store)"""
+    f = L.job
+    var = None
+    for n in ast.walk(f.node):
+        if isinstance(n, ast.Return) and isinstance(n.value, ast.Name):
+            var = n.value.id
+    if var is None:
+        ctx.unknown(rule, "wake-up variable not found in %s" % f.qual)
+        return
+    def mentions(node):
+        return any(isinstance(x, ast.Name) and x.id == var for x in ast.walk(node))
+    tables = ["_rcv_buffer", "_snd_buffer"] + (["_multi_pg_snd_buffer"] if L.fd else [])
+    seen = {}
+    for table in tables:
+        for r in scan_runs(ctx, L, table, unroll=2):
+            E = None
+            for i, e in r.effects():
+                if e.kind == "store" and e.target[0] == "sub" and e.target[2] == ("c", "deadline") and root_field(e.target) == table:
+                    E = e.target[1]
+            if E is None:
+                continue
+            if any(e.kind == "del" and e.target == E for _, e in r.effects()) or r.term in ("raise", "cut"):
+                continue
+            k = max(i for i, e in r.effects() if e.kind == "store" and e.target == sub(E, "deadline"))
+            st = (_state_name(L, r) if table == "_snd_buffer" else None) or "-"
+            node = [e for i, e in r.effects() if i == k][0].node
+            key = (table, st, getattr(node, "lineno", 0))
+            ok = False
+            for rec in r.recs[k + 1:]:
+                nd = rec.ev.node
+                if rec.ev.kind == "cond" and isinstance(nd, ast.AST) and mentions(nd):
+                    ok = True
+                    break
+                if rec.ev.kind == "stmt" and isinstance(nd, ast.Assign) and any(isinstance(t, ast.Name) and t.id == var for t in nd.targets):
+                    ok = True
+                    break
+            if ok:
+                seen.setdefault(key, None)
+            else:
+                seen[key] = node
+    for (table, st, ln), bad in sorted(seen.items()):
+        inst = "%s %s state=%s: new deadline (line-independent #%d) reaches the next wake-up" % (L.tag, table, st, sorted(k for k in seen if k[:2] == (table, st)).index((table, st, ln)))
+        if bad is None:
+            ctx.holds(rule, inst)
+        else:
+            ctx.violated(rule, f, inst, "a path gives the session a new deadline but leaves the pass without comparing it with `%s`: the job thread "
+                         "sleeps until some other deadline (5 s when idle) and the packet / timeout due at this one is served late" % var, bad)
+    if not seen:
+        ctx.unknown(rule, "no re-arming paths found in %s" % f.qual)
+
+
+def finish_now(ctx, L, rule="R-FINISH-NOW"):
+    """a send session that the peer has acknowledged (or aborted) is handed to the job thread for removal immediately:
+    its deadline is set to `now` - any later time keeps the pair busy and the next send_pgn to that peer is refused"""
+    done = [L.const("state", "EOM_ACK_RECEIVED")] if L.fd else [L.const("state", "TRANSMISSION_FINISHED")]
+    n = 0
+    for f in (L.cm, L.dt):
+        seen = set()
+        for r in runs(ctx, f):
+            for i, e in r.effects():
+                if e.kind == "store" and e.target[0] == "sub" and e.target[2] == ("c", "state") and root_field(e.target) == "_snd_buffer" \
+                        and is_const(e.value) and cval(e.value) in done and id(e.node) not in seen:
+                    seen.add(id(e.node))
+                    n += 1
+                    E = e.target[1]
+                    lab = ""
+                    for g, p in lits(r.guards(i)):
+                        if p and g[0] == "cmp" and g[1] == "==" and is_const(g[2]) != is_const(g[3]) and contains(g, ("sub", ("p", "data"), ("c", 0))):
+                            v = cval(g[2]) if is_const(g[2]) else cval(g[3])
+                            lab = " (%s)" % ([k for k, c in L.ctl.items() if c == v] or [v])[0]
+                    inst = "%s %s%s: finished send session is due for removal at once" % (L.tag, f.name, lab)
+                    dl = [x for _, x in r.effects() if x.kind == "store" and x.target == sub(E, "deadline")]
+                    if not dl:
+                        ctx.violated(rule, f, inst, "the session is marked finished but its deadline is left as it was", e.node)
+                        continue
+                    d = affine_diff(dl[-1].value, TIME)
+                    if d == ({}, 0):
+                        ctx.holds(rule, inst)
+                    else:
+                        ctx.violated(rule, f, inst, "the finished session's deadline is %s instead of now: until then the pair counts as busy and a "
+                                     "following transfer to the same peer is silently refused" % pretty(dl[-1].value)[:60], dl[-1].node)
+    if n == 0:
+        ctx.unknown(rule, "no 'finished' state store found on the receive path of %s" % L.cls)
